@@ -400,3 +400,69 @@ func (sc *scenario) run(gated bool, label string) bool {
 	}
 	return ok
 }
+
+// guarded runs one call of a sequential history in its own goroutine and
+// watches for a stall: the call has not returned, every goroutine is parked in
+// many consecutive dumps and no backend event was recorded in between (the
+// sequential engines hold no gates and arm no timers). It returns the dump of
+// a proven stall ("" otherwise) and the recovered panic, if any.
+func guarded(e *env, f func()) (stallDump, panicMsg, panicStack string) {
+	done := make(chan struct{})
+	go func() {
+		defer close(done)
+		defer func() {
+			if p := recover(); p != nil {
+				panicMsg = fmt.Sprint(p)
+				panicStack = string(debug.Stack())
+			}
+		}()
+		f()
+	}()
+	t := time.NewTimer(20 * time.Millisecond)
+	defer t.Stop()
+	select {
+	case <-done:
+		return
+	case <-t.C:
+	}
+	quiet := 0
+	last := int64(-1)
+	for {
+		select {
+		case <-done:
+			return
+		case <-time.After(3 * time.Millisecond):
+		}
+		p := e.progress.Load()
+		d, blocked := allBlocked()
+		if blocked && p == last {
+			quiet++
+		} else {
+			quiet = 0
+		}
+		last = p
+		if quiet >= 100 {
+			select {
+			case <-done:
+				return
+			default:
+			}
+			return d, "", ""
+		}
+	}
+}
+
+// seqCall is guarded plus the reporting shared by the sequential engines; it
+// returns false if the history cannot be continued.
+func seqCall(c *run.Case, e *env, label string, f func()) bool {
+	dump, pm, ps := guarded(e, f)
+	if dump != "" {
+		c.Violation("stall:"+stallSite(dump), "%s never returned: every goroutine is parked in consecutive dumps, no gate is held, no timer is armed\n%s", label, dump)
+		return false
+	}
+	if pm != "" {
+		c.Violation("panic:"+panicSiteOf(ps), "%s panicked: %s\n%s", label, pm, ps)
+		return false
+	}
+	return true
+}
